@@ -113,6 +113,25 @@ func c14Scenarios(tier string) []Spec {
 		return []func(){func() { w.joinOp(0, w.a, w.b, -1, "join:A<-B") }, func() { w.joinOp(1, w.b, w.c, -1, "join:B<-C") }},
 			func() []sched.Finding { return mergeOracle("A", w.a, a0, nil, []string{b0, union(b0, c0)}) }
 	})
+	// a size-bounded merge INTO the source while it is being merged from: the source's entry set shrinks
+	for _, v := range []struct {
+		name     string
+		src, oth func(w *w13) *ipfslog.IPFSLog
+	}{
+		{"J8-A.join(B)|B.join(C,1)", func(w *w13) *ipfslog.IPFSLog { return w.b }, func(w *w13) *ipfslog.IPFSLog { return w.c }},
+		{"J9-A.join(C)|C.join(B,1)", func(w *w13) *ipfslog.IPFSLog { return w.c }, func(w *w13) *ipfslog.IPFSLog { return w.b }},
+	} {
+		v := v
+		add(v.name, 2, b2, func(w *w13) ([]func(), func() []sched.Finding) {
+			src, oth := v.src(w), v.oth(w)
+			a0, s0 := setOf(w.a), setOf(src)
+			return []func(){func() { w.joinOp(0, w.a, src, -1, "join:A<-src") }, func() { w.joinOp(1, src, oth, 1, "join1:src<-other") }},
+				func() []sched.Finding {
+					// the source was in exactly two states: before the bounded merge and after it
+					return mergeOracle("A", w.a, a0, nil, []string{s0, setOf(src)})
+				}
+		})
+	}
 	add("J4-A.join(B)|B.join(A)", 2, b2, func(w *w13) ([]func(), func() []sched.Finding) {
 		a0, b0 := setOf(w.a), setOf(w.b)
 		return []func(){func() { w.joinOp(0, w.a, w.b, -1, "join:A<-B") }, func() { w.joinOp(1, w.b, w.a, -1, "join:B<-A") }},
